@@ -149,6 +149,83 @@ CLAIMED = {
     "C16": (
         "proof: tablify (as table/bulktable call it) proved for every binding list below the entry: succeeds, one row per "
         "distinct index suffix with the full suffix under key '0', every binding's value in its row under its column, every "
+        "value cell comes from a binding (nothing from outside); lifted to every sorted agent database (C16_table_of_db); on "
+        "the Python-faithful walk model, against the conformant agent with any truncation policy and repetition count, "
+        "table(entry)'s GETNEXT walk and bulktable(table)'s bulk walk both end normally and yield EXACTLY the agent's instances "
+        "below the root, in database order (C16_getnext_yields, C16_bulk_yields), hence both API paths hand tablify the same "
+        "bindings and return the same rows in the same order for every SMI table (C16_api_agree); tied by unit tablify + "
+        "e2e tables (raw, bulk, pythonic) with a database oracle",
+        "row ids / column keys are compared as tuples / numbers (string rendering assumed injective); SMI guards: columns >= 1, "
+        "nothing below the table outside entry .1, no instance equal to the table / entry OID itself",
+    ),
+    "C17": (
+        "proof: Counter32/64 range+wrap, tick and IPv4 round trips proved for all integers over bodies generated from the "
+        "source by the mini translator; correspondence on boundaries + dense tick prefix",
+        "float division in TimeTicks.pythonize is modelled as exact (argued in DESIGN.md, sampled); x690 Integer codec modelled",
+    ),
+    "C09": (
+        "proof: for every MAC / localisation / privacy function: with an auth key whatever is accepted carried the auth flag, the "
+        "credential's user name, a 12-octet digest equal to the MAC (localised key, octets as received with the digest zeroed); with "
+        "a priv key it carried the priv flag and an OCTET STRING payload decrypted under the key localised to the engine id in the "
+        "message with the message's boots/time/salt, plaintext never accepted; unauthenticated messages (Reports included) only "
+        "raise; under an explicit unforgeability hypothesis the result is an authentic one; tied by structural forgeries run "
+        "through the real message-processing model vs the model (independent HMAC / keystream oracles) and a bit-flipping MITM",
+        "cryptographic strength is a hypothesis (C09_same_result), not a theorem; hangs inside x690 on corrupted input are "
+        "attributed to the recorded dependency finding only when the Lean x690 mirror predicts the loop for that datagram",
+    ),
+    "C10": (
+        "proof: flags = level of the credentials (generated V3Flags code) and every confirmed-class request kind reportable "
+        "(generated is_confirmed table, decide); security parameters = discovery result + user; digest = MAC over the datagram "
+        "with twelve zero octets, and datagram / MAC input differ only in those twelve octets (in-place lemma over the message "
+        "structure); authentic responses at the credentials' level are accepted for every length; expansion buffer has n octets "
+        "with octet i = password[i mod |password|] for every non-empty password; localisation buffer Ku ++ engineId ++ Ku; tied "
+        "by the reference RFC 3414 agent accepting every generated request, independent HMAC over the wire bytes, byte-exact "
+        "comparison with the model, authentic responses sweeping all lengths 100..300, recording-hash key derivation",
+        "HMAC / hash functions are abstract in Lean (theorems hold for every function) and trusted in hashlib",
+    ),
+    "C11": (
+        "proof: for every privacy plug-in (enc, dec): msgData of the datagram = OCTET STRING of enc(key, engine id, boots, time, "
+        "bytes(scoped PDU)).1 with key = privacy pass-phrase localised to the discovered engine id by the auth hash, privacy "
+        "parameters = the returned salt, and the independent reader finds exactly that in the datagram; the datagram depends on "
+        "the scoped PDU only through the plug-in's output; incoming decryption uses the key and the engine id / boots / time / "
+        "salt found in the message; dec o enc = id implies every payload round-trips; tied by a recording keyed-stream plug-in "
+        "in the plug-in namespace: wire bytes, recorded arguments, visibility of SET payload / context name, results",
+        "exercised with one plug-in (the theorems quantify over all); cipher strength is outside the property",
+    ),
+    "C12": (
+        "proof: first datagram of a fresh client is a discovery probe in every history; every request carries the "
+        "discovered engine id (security and default context engine id); refused discovery replies (foreign msg id / no bindings) "
+        "cache nothing; from ANY state (after any history of requests, clock advances, agent reboots, refused replies) a "
+        "request by an authenticated user ends with a request inside the agent's 150 s window (C12_in_window), with at most "
+        "one out-of-window attempt per operation; without reboots every datagram is within 1 s of the agent's time; tied by "
+        "histories on a shared virtual time line (wire trace + agent verdict per datagram)",
+        "no clock drift between client and agent; engine-time wrap at 2^31 and time passing during one operation not modelled",
+    ),
+    "C13": (
+        "proof (partial): for every outcome sequence, retries and timeout: <= retries identical transmissions, first reply inside "
+        "its window returned unmodified at its arrival time after k full timeouts, Timeout iff retries unanswered attempts in a row "
+        "and then after exactly retries x timeout, opened = closed endpoints; tied by running the real send_udp on a virtual-time "
+        "loop with a recording endpoint factory, exhaustively over all outcome sequences up to the retry budget, plus loopback "
+        "sockets with /proc/self/fd counts",
+        "partial: kernel socket behaviour, ICMP timing, garbage collection and equal-deadline timer order are outside the model",
+    ),
+    "C14": (
+        "proof (partial): for every finite set of coroutine-tree operations on one client and every schedule: every finished "
+        "operation returns its solo result and has emitted exactly its solo requests, at every moment its requests are a prefix "
+        "of the solo run (the only extra traffic is discovery probes), deliveries never touch another operation's state; tied by "
+        "running 2..6 real operations under a controllable scheduler that enumerates all answering orders (v2c, v3 authPriv, one "
+        "and two clients) and comparing the global wire-event order with the model's under the same schedule",
+        "partial: asyncio's no-preemption-between-awaits semantics is assumed; agent answers are a function of the request",
+    ),
+    "C15": (
+        "proof: for every raw result every wrapper method returns built-in types only (PyVal universe with an explicit leak "
+        "constructor, dictionary keys included) and equals the element-wise pythonisation (tables: same items, index key moved "
+        "last); tied by deep type inspection of all 11 PyWrapper methods vs the raw client against agents holding every value kind",
+        "TimeTicks.pythonize goes through float division, modelled as exact (see C17)",
+    ),
+    "C16": (
+        "proof: tablify (as table/bulktable call it) proved for every binding list below the entry: succeeds, one row per "
+        "distinct index suffix with the full suffix under key '0', every binding's value in its row under its column, every "
         "value cell comes from a binding (nothing from outside); lifted to every sorted agent database (C16_table_of_db); "
         "table(entry) and bulktable(table) agree for SMI tables; the single-root walk of C01 is proved to yield exactly the "
         "instances below the entry; tied by unit tablify + e2e tables (raw, bulk, pythonic) with a database oracle",
